@@ -1,6 +1,6 @@
 (* C06: the equivalence theorems for convert_variable itself (shape lemmas + semantic lemmas). *)
 From Coq Require Import List ZArith QArith Bool Lia Reals Lra Qreals.
-From Verif Require Import Sexp UnitAlg UnitAlgP Expr Eval ModelSM ConvertVar C06EvalP C06P C06ShapeP.
+From Verif Require Import Sexp UnitAlg UnitAlgP Expr Eval ModelSM ConvertVar C06EvalP C06P C06ShapeP C06ReplaceP C06StateP.
 Import ListNotations.
 Open Scope R_scope.
 
@@ -46,7 +46,37 @@ Proof.
   - apply (input_constant_equiv fsem psem csem psem_inv (ceqs s) v (length (cvars s)) (cqnext s) cfq _ nu dl Hf); [congruence|lra].
 Qed.
 
-(* sequences of such conversions: by induction, every old variable keeps its value along the whole history *)
+(* INPUT of a STATE variable (not the free variable): the converted variable becomes the state, the original ODE
+   right-hand side is kept in a new variable w, every other mention of the old derivative is replaced by w.
+   Every pre-existing variable keeps its value; new = factor x original; d new/dt = factor x d original/dt *)
+Lemma find_none_not_in l v : find (fun q => clhs_eqb (q_lhs q) (CLV v)) l = None -> ~ In (CLV v) (map q_lhs l).
+Proof.
+  intros H Hin. apply in_map_iff in Hin as [q [E Hq]]. apply (find_none _ _ H) in Hq. rewrite E in Hq.
+  cbn [clhs_eqb] in Hq. rewrite Nat.eqb_refl in Hq. discriminate.
+Qed.
+
+Theorem input_state_conversion s v target mv s' n ode t :
+  convert_variable s v target DInput mv = COk (s', n) -> n <> v ->
+  ode_def s v = Some ode -> q_lhs ode = CLD v t ->
+  var_def s v = None -> (forall t0, free_var s = Some t0 -> t0 <> v) ->
+  NoDup (map q_lhs (ceqs s)) ->
+  fresh_var (length (cvars s)) (ceqs s) = true -> fresh_var (S (length (cvars s))) (ceqs s) = true ->
+  fresh_atom (length (cvars s)) t (ceqs s) = true -> (v < length (cvars s))%nat ->
+  exists k, 0 < k /\ forall nu dl,
+    (Sat nu dl (ceqs s) ->
+     Sat (upd (upd nu n (nu v * k)) (S n) (dl v t)) (updd dl n t (dl v t * k)) (ceqs s')) /\
+    (Sat nu dl (ceqs s') ->
+     Sat nu (updd dl v t (nu (S n))) (ceqs s) /\ nu n = nu v * k /\ dl n t = nu (S n) * k).
+Proof.
+  intros H Hnv Hode Hl Hvd Hfree Hnd Hf1 Hf2 Hfa Hlt.
+  destruct (convert_input_state_shape s v target mv s' n ode t H Hnv Hode Hl Hvd Hfree) as [orig [cfv [cfq [Ho [_ [_ [Hpos [Hn He]]]]]]]].
+  exists (Q2R cfq). pose proof (Q2R_pos cfq Hpos) as Hk. split; [exact Hk|]. intros nu dl. rewrite He. subst n.
+  apply (input_state_equiv fsem psem csem psem_inv (ceqs s) v t (length (cvars s)) (S (length (cvars s))) (cqnext s) cfq _ ode nu dl);
+    try assumption; try lia; try lra.
+  - apply (ode_def_exact s v ode t Hode Hl).
+  - apply find_none_not_in. exact Hvd.
+Qed.
+
 End Sem.
 
 (* the law assumed of powers holds for the concrete power of Sem/Eval.v *)
